@@ -10,7 +10,7 @@
    strong cycle; a module dropped while one of its timers is pending leaves the
    queue and the slot allocated (memory only: no user value hangs on them). *)
 From Coq Require Import List NArith Arith Bool Lia.
-From DesVerif Require Import Own.Heap Own.Frame Own.Inv Own.Shape Own.Rank Own.Check Own.Cycle Own.Model.
+From DesVerif Require Import Own.Heap Own.Frame Own.Inv Own.Shape Own.Rank Own.Check Own.Cycle Own.World Own.Model.
 Import ListNotations.
 Local Open Scope nat_scope.
 
